@@ -6,7 +6,7 @@ From SV Require Import Base.Bytes Generated.SourceParams.
 Import ListNotations.
 From SV Require Import Model.IOSched Model.Chunked.
 
-Lemma translation_complete : src_translation_problems = 0%nat.
+Lemma chunk_translated : src_problems_chunk = 0%nat.
 Proof. reflexivity. Qed.
 
 (* ---- src/util.rs copy_chunked_async ---- *)
